@@ -25,6 +25,9 @@ pub fn run(ctx: &Ctx) -> Outcome {
         let key = keys(seed, cfg.key_len)[0].clone();
         let iv = pattern(seed, 0x1717, bs);
         let data = pattern(seed, 0xC13, (par_of(cfg) + 8) * bs + 8);
+        for tag in ["cts_short", "unequal_b2b", "padded_nonmultiple", "ctor_lengths", "panic_sweep"] {
+            rep.outcome(format!("{}:{}:{}", cfg.name, tag, cfg.bs).as_bytes());
+        }
         // ---- (1) ciphertext stealing: every length below one block is refused, buffers untouched ----
         for d in &cfg.cts {
             for dir in [Dir::Enc, Dir::Dec] {
